@@ -162,12 +162,12 @@ class PixSkyPix(Relation):
 
     def check(self, sp, ctx):
         w = sp['wcs']
-        wcs = S.build_wcs(w)
         lim = _max_offset(w)
         rs = _decorate(sp['region'], sp['meta'], sp['visual'])
         if rs['cls'] == 'CompoundPixelRegion' and sp['cmeta'] is not None:
             rs['meta'] = sp['cmeta']
-            rs['via'] = 'ctor'
+            if rs.get('via') != 'ctor':
+                rs['via'] = 'operator'   # then meta assigned (vf.spec)
         rs = _place(rs, w['crpix'], (sp['off'][0] * lim, sp['off'][1] * lim))
         cls = rs['cls']
         # size precondition: the whole region within 45 deg of the centre
@@ -176,6 +176,11 @@ class PixSkyPix(Relation):
             ctx.count('outside_domain_size')
             return
         R = S.build(rs)
+        # (a WCS object with a past converts this very region in its earlier
+        # state before it is edited in place)
+        wcs = S.build_wcs(w, warm=lambda x: R.to_sky(x).to_pixel(x))
+        if w.get('past'):
+            ctx.label('wcs:edited-in-place')
         from vf.fingerprint import fp
         fp_R = fp(R)
         sky = R.to_sky(wcs)
@@ -333,7 +338,6 @@ class SkyPixSky(Relation):
         from astropy.coordinates import SkyCoord
         from regions import PixCoord
         w = sp['wcs']
-        wcs = S.build_wcs(w)
         lim = _max_offset(w)
         ss = sp['region']
         if sp['same_frame']:
@@ -344,6 +348,13 @@ class SkyPixSky(Relation):
         ss = _decorate_sky(ss, sp['meta'], sp['visual'])
         cls = ss['cls']
         Sreg = S.build(ss)
+
+        def warm(x):
+            Sreg.to_pixel(x).to_sky(x)
+            Sreg.contains(_first_sky_center(Sreg), x)
+        wcs = S.build_wcs(w, warm=warm)
+        if w.get('past'):
+            ctx.label('wcs:edited-in-place')
         from vf.fingerprint import fp
         fp_S = fp(Sreg)
         c0 = [float(v) for v in wcs.world_to_pixel(_first_sky_center(Sreg))]
